@@ -283,6 +283,11 @@ func (s *Server) RunControlSession(conn net.Conn) {
 		buf := make([]byte, 1)
 		for {
 			n, err := conn.Read(buf)
+			// a stream may hand over its last byte together with the end of file: the byte
+			// belongs to the command line all the same
+			if n == 1 && err == io.EOF && buf[0] != '\r' && buf[0] != '\n' {
+				cmdBytes = append(cmdBytes, buf[0])
+			}
 			if err == io.EOF {
 				s.nc.GetLogger().Debug("Control service closed\n")
 				done = true
